@@ -377,3 +377,4 @@ package openapi3
 //@   modifies nothing
 //@   ensures result == (x == nil || (x.Ref == "" && x.Value == nil))
 //@   tag C20
+//@ propertylevel C02 other walk completeness (43 obligations discharged by a scan of the SSA of the functions reachable from ResolveRefsIn: each reference-holding field is read) plus one SMT-proved contract (JSON-pointer unescaping order); the statement's core - a resolved object equals the designated one - is not decided
